@@ -118,13 +118,14 @@ def lost_cancel_lines(lines: list[str]) -> list[str]:
 
 class GenC04:
     def __init__(self, rng: random.Random, max_depth: int = 3, max_lines: int = 14, macros: bool = False,
-                 alarm_nesting: bool = True, malformed: bool = False):
+                 alarm_nesting: bool = True, malformed: bool = False, bad_conditions: bool = False):
         self.rng = rng
         self.max_depth = max_depth
         self.max_lines = max_lines
         self.macros_on = macros
         self.alarm_nesting = alarm_nesting
         self.malformed = malformed
+        self.bad_conditions = bad_conditions
         self.lines: list[str] = []
         self.macros: list[str] = []
         self.mark_no = 0
@@ -198,6 +199,13 @@ class GenC04:
         if k == "call":
             self.emit(depth, f"Call macro: {r.choice(self.macros)}")
             return 1
+        if k == "bad" and self.bad_conditions and r.random() < 0.5:
+            # engine oracle stream only: Watch/Alarm whose condition cannot be evaluated
+            self.lines.append("    " * depth + r.choice([
+                "Watch: T9 > 1", "Watch: T0 >", "Alarm", "Watch: T0 > banana", "Alarm: > 2", "Watch T0 > 1",
+                "Alarm: T1 = 1 mL"]))
+            self.mark(depth + 1)
+            return 2
         if k == "bad":
             self.lines.append("    " * depth + r.choice([
                 # malformations the model can express (an instruction that fails when it runs).  Conditions that
